@@ -15,6 +15,7 @@ import (
 	"os/exec"
 	"path/filepath"
 	"regexp"
+	"sort"
 	"strings"
 	"sync/atomic"
 	"syscall"
@@ -65,7 +66,13 @@ func echo(oc *lib.OConn, req *lib.Msg) lib.Action {
 func (e *env) child(channel string, opts map[string][]string, withAPI bool) (*lib.CLI, error) {
 	var args, envs []string
 	var yaml strings.Builder
-	for k, vs := range opts {
+	keys := make([]string, 0, len(opts))
+	for k := range opts {
+		keys = append(keys, k)
+	}
+	sort.Strings(keys) // the same option order in every run
+	for _, k := range keys {
+		vs := opts[k]
 		if channel == "config" {
 			// YAML config file: one key per option, lists as comma-separated single-quoted strings
 			// YAML: a scalar for one value, a real list for several (list items may contain commas)
@@ -568,9 +575,6 @@ func (e *env) mitm(ch string) bool {
 	o["mitm-cakey-file"] = []string{lib.DataURI(mitmCA.KeyPEM)}
 	o["mitm-domains"] = []string{`.*`, `-\Atunnel\.test\z`}
 	o["mitm-cache-ttl"] = []string{"0s"} // cached certificates never expire; their validity is another option
-	o["mitm-cache-size"] = []string{"1"} // every other host evicts the one before
-	o["mitm-validity"] = []string{"10m"}
-	o["mitm-org"] = []string{"Verif Wiring Org"}
 	o["cacert-file"] = []string{lib.DataURI(e.ca.CertPEM)}
 	c, err := e.child(ch, o, false)
 	if err != nil {
@@ -611,21 +615,6 @@ func (e *env) mitm(ch string) bool {
 		ok = false
 	}
 	in.Close()
-	// a cache of one certificate: alternating hosts still get a certificate for their own name
-	for i := 0; i < 6; i++ {
-		host := []string{"untrusted.test", "secure.test"}[i%2]
-		in, cs, err := handshake(host, mitmCA.Pool())
-		if err != nil {
-			e.viol("mitm:certificate-after-eviction", fmt.Sprintf("[%s] --mitm-cache-size=1, handshake #%d for %s against the configured MITM CA failed: %v", ch, i, host, err), nil)
-			ok = false
-			break
-		}
-		if leaf := cs.PeerCertificates[0]; time.Until(leaf.NotAfter) > 15*time.Minute || time.Until(leaf.NotAfter) <= 0 {
-			e.viol("mitm:validity-option", fmt.Sprintf("[%s] --mitm-validity=10m, the certificate for %s is valid until %v", ch, host, leaf.NotAfter), nil)
-			ok = false
-		}
-		in.Close()
-	}
 	// excluded from interception: the origin's own certificate (signed by e.ca) is seen
 	if in, _, err := handshake("tunnel.test", e.ca.Pool()); err != nil {
 		e.viol("mitm:excluded-domain", fmt.Sprintf("[%s] tunnel.test is excluded by mitm-domains, the client must see the origin's own certificate: %v", ch, err), nil)
@@ -640,6 +629,34 @@ func (e *env) mitm(ch string) bool {
 		r, pst, _ := in.ReadResponse("GET", 10*time.Second)
 		if len(bad.Requests()) != before || (pst == lib.POK && r.Status/100 == 2) {
 			e.viol("mitm:origin-verification", fmt.Sprintf("[%s] an origin whose certificate is not signed by a trusted CA received a request (client got %v)", ch, r), nil)
+			ok = false
+		}
+		in.Close()
+	}
+	// a second instance with a cache of one certificate, a short validity and an organisation name:
+	// alternating hosts still get a certificate for their own name
+	c.Stop()
+	o["mitm-cache-size"] = []string{"1"} // every other host evicts the one before
+	o["mitm-validity"] = []string{"10m"}
+	o["mitm-org"] = []string{"Verif Wiring Org"}
+	delete(o, "mitm-cache-ttl")
+	c2, err := e.child(ch, o, false)
+	if err != nil {
+		e.run.Inconclusive("wiring child: " + err.Error())
+		return false
+	}
+	defer c2.Stop()
+	c = c2
+	for i := 0; i < 6; i++ {
+		host := []string{"untrusted.test", "secure.test"}[i%2]
+		in, cs, err := handshake(host, mitmCA.Pool())
+		if err != nil {
+			e.viol("mitm:certificate-after-eviction", fmt.Sprintf("[%s] --mitm-cache-size=1, handshake #%d for %s against the configured MITM CA failed: %v", ch, i, host, err), nil)
+			ok = false
+			break
+		}
+		if leaf := cs.PeerCertificates[0]; time.Until(leaf.NotAfter) > 15*time.Minute || time.Until(leaf.NotAfter) <= 0 {
+			e.viol("mitm:validity-option", fmt.Sprintf("[%s] --mitm-validity=10m, the certificate for %s is valid until %v", ch, host, leaf.NotAfter), nil)
 			ok = false
 		}
 		in.Close()
